@@ -14,8 +14,6 @@ Inductive err :=
 
 (* crash sites *)
 Definition site_bind_twice := 1.       (* bind: assert not self.bound *)
-Definition site_above_bound := 2.      (* above: assert not self.bound *)
-Definition site_below_bound := 3.      (* below: assert not self.bound *)
 Definition site_inform_bound := 4.     (* Constraint.inform: assert not v.bound *)
 Definition site_elim_normalized := 5.  (* EliminationConstraint.fulfill: assert normalized *)
 Definition site_arity := 6.            (* zip over mismatching arity / malformed type *)
@@ -320,6 +318,8 @@ Section Engine.
                    else if (match c_upper c with Some u => osub true u o | None => false end)
                    then fail ESubtypeMismatch
                    else ret tt
+                 else if (match c_lower c, c_upper c with None, None => false | _, _ => true end)
+                 then fail ETypeMismatch      (* a variable bounded by base types is a base type *)
                  else
                    vs <- lift (fun s => vars_f f s t []) ;;
                    modify (fun s =>
@@ -343,7 +343,7 @@ Section Engine.
           set_wild v false ;;;
           c <- gets (fun s => cell_of s v) ;;
           match c_bound c with
-          | Some _ => fail (ECrash site_above_bound)
+          | Some t => unify f true false false (O new []) t   (* already resolved: check the resolved type *)
           | None =>
               (match c_upper c, c_lower c with
                | Some u, _ =>
@@ -363,9 +363,9 @@ Section Engine.
                | None, None => set_lower v (Some new) ;;; check_constraints f v
                end) ;;;
               c' <- gets (fun s => cell_of s v) ;;
-              match c_lower c', c_upper c' with
-              | Some l, Some u => if Nat.eqb l u then bind f v (O l []) else ret tt
-              | _, _ => ret tt
+              match c_bound c', c_lower c', c_upper c' with
+              | None, Some l, Some u => if Nat.eqb l u then bind f v (O l []) else ret tt
+              | _, _, _ => ret tt
               end
           end
     end
@@ -379,7 +379,7 @@ Section Engine.
           set_wild v false ;;;
           c <- gets (fun s => cell_of s v) ;;
           match c_bound c with
-          | Some _ => fail (ECrash site_below_bound)
+          | Some t => unify f true false false t (O new [])
           | None =>
               (match c_lower c, c_upper c with
                | Some l, _ =>
@@ -399,9 +399,9 @@ Section Engine.
                | None, None => set_upper v (Some new) ;;; check_constraints f v
                end) ;;;
               c' <- gets (fun s => cell_of s v) ;;
-              match c_upper c', c_lower c' with
-              | Some u, Some l => if Nat.eqb u l then bind f v (O u []) else ret tt
-              | _, _ => ret tt
+              match c_bound c', c_upper c', c_lower c' with
+              | None, Some u, Some l => if Nat.eqb u l then bind f v (O u []) else ret tt
+              | _, _, _ => ret tt
               end
           end
     end
@@ -463,8 +463,16 @@ Section Engine.
               r <- lift (fun s => match_f f s true false (k_ref k) target) ;;
               match r with
               | Some true =>
-                  upd_constr c (fun k => mkConstr false (k_ref k) (k_alts k) (k_strict k) true) ;;;
-                  ret true
+                  same <- (if k_strict k
+                           then lift (fun s => match_f f s false false (k_ref k) target)
+                           else ret (Some false)) ;;
+                  match same with
+                  | Some true => fail EConstraintViolation     (* strict excludes equality *)
+                  | None => d <- gets (fun s => k_done (constr_of s c)) ;; ret d
+                  | Some false =>
+                      upd_constr c (fun k => mkConstr false (k_ref k) (k_alts k) (k_strict k) true) ;;;
+                      ret true
+                  end
               | Some false => fail EConstraintViolation
               | None => d <- gets (fun s => k_done (constr_of s c)) ;; ret d
               end
@@ -503,7 +511,8 @@ Section Engine.
                  else outer rest mins'
              end) (k_alts k) [] ;;
         rf <- gets (fun s => follow s (k_ref k)) ;;
-        upd_constr c (fun k => mkConstr (k_elim k) rf mins (k_strict k) (k_done k))
+        mins' <- gets (fun s => map (follow s) mins) ;;
+        upd_constr c (fun k => mkConstr (k_elim k) rf mins' (k_strict k) (k_done k))
     end
 
   (* TypeInstance.fix, lines 394-409 *)
